@@ -128,6 +128,7 @@ def run(params, tape, detail=False):
         line.send("h2n", data[:ncan], raw, data, fr[0])
 
     transport = SimTransport(loop, host_write, log=log)
+    transport.on_mutated = lambda snap, now, _m=mon: _m._v("C03.tx", "buffer-mutated-after-write", f"the object handed to transport.write() ({snap.hex()}) was changed afterwards (now {now.hex()}): a transport that has not drained yet would put the new content on the wire")
 
     mon.rxdiff = True
 
